@@ -27,8 +27,12 @@ func VerifC04Login() {
 		ClientSpec: msg.ClientSpec{AlwaysAuthPass: zzverif.Bool("alwaysAuthPass"), Type: []string{"", "ssh-tunnel"}[zzverif.Choice("ctype", 2)]},
 	}
 	zzCrypto.calls, zzCrypto.fail, zzCrypto.last = 0, false, nil
+	mt, restore := zzInstallMetrics()
+	defer restore()
 
 	err := svr.RegisterControl(conn, login, internal)
+	// what the operator is shown: one client per session created, none for a refused attempt
+	zzverif.Assert(mt.clients == zzSessions(svr), "C04.login.client-count-reported-equals-sessions-created")
 
 	exempt := internal && login.ClientSpec.AlwaysAuthPass
 	if err == nil {
